@@ -160,6 +160,8 @@ class Scenario:
         self.kicked = []  # (broker idx, BrokerMessage)
         self.log = []
         self.plan = []
+        self.repeat_last = bool(case.get("repeat_last"))
+        self.guard = int(case.get("guard", 40))
         self.body_log = []
         n = [0]
 
@@ -186,7 +188,10 @@ class Scenario:
         scen = self
 
         async def body(*args, ctx: Context = TaskiqDepends(), **kwargs):
-            act = scen.plan.pop(0) if scen.plan else "ok"
+            if scen.repeat_last and len(scen.plan) == 1:
+                act = scen.plan[0]
+            else:
+                act = scen.plan.pop(0) if scen.plan else "ok"
             rec = {"act": act, "ctx": enc_dict(ctx.message.labels), "tid": ctx.message.task_id,
                    "args": list(args), "kwargs": dict(kwargs)}
             scen.body_log.append(rec)
@@ -228,7 +233,7 @@ class Scenario:
         queue = [(bidx, bm)]
         self.plan = list(plan)
         guard = 0
-        while queue and guard < 40:
+        while queue and guard < self.guard:
             guard += 1
             bi, m = queue.pop(0)
             self.log.clear()
